@@ -326,6 +326,28 @@ func ExecProperty(impl ExecImpl, prop string, gen func(c *Ctx, v2 bool)) Propert
 				execOracleVerify(cfg, t, cls, err, pre, post, expected, classifyExecErr(gerr, t), fail)
 			}
 		}
+		// C10: generating and then verifying the same inputs always succeeds
+		if prop == "C10" && !cfg.Verify {
+			vcfg := *cfg
+			vcfg.Verify = true
+			for i, t := range cfg.Targets {
+				if classes[i] != "ok" {
+					continue
+				}
+				var verr error
+				func() {
+					defer func() {
+						if r := recover(); r != nil {
+							verr = fmt.Errorf("panic: %v", r)
+						}
+					}()
+					verr = impl.RunTarget(&vcfg, i, root, &ExecRecorder{})
+				}()
+				if verr != nil {
+					fail("generate-then-verify-fails", fmt.Sprintf("target %s was generated successfully, verifying it straight afterwards fails: %v", t.Name, Trunc(verr.Error(), 300)))
+				}
+			}
+		}
 		after := snapshot(root)
 		disk := after.String()
 		if anyUnknown {
